@@ -13,7 +13,6 @@ import (
 	"github.com/NethermindEth/juno/db/memory"
 	_ "github.com/NethermindEth/juno/encoder/registry"
 	"github.com/NethermindEth/juno/l1/eth"
-	"github.com/NethermindEth/juno/migration"
 	"github.com/NethermindEth/juno/migration/blocktransactions/txlayout"
 	"github.com/NethermindEth/juno/pruner"
 )
@@ -389,7 +388,7 @@ func buildPreImage(s dbSpec, blocks []blockContent) (*memory.Database, *model) {
 	if s.Variant == "tx-migrated-then-pruned" {
 		// the database was upgraded by a binary that knew only the block-transactions
 		// migration (+ the two optional slots, disabled), then pruned by the real pruner
-		must(migration.WriteSchemaMetadata(st, migration.SchemaMetadata{CurrentVersion: 0b0001, LastTargetVersion: 0b0001}))
+		writeReleasedMeta(st, 0b0001, 0b0001)
 		pruned, oldest, err := pruner.PruneUpto(context.Background(), st, s.PrunedTo, 1<<20)
 		must(err)
 		if pruned != s.PrunedTo || oldest != s.PrunedTo {
